@@ -172,7 +172,9 @@ func (c *Check) constValue(pkgRel, name string) (string, bool) {
 	if obj == nil {
 		return "", false
 	}
-	k, ok := obj.(interface{ Val() interface{ ExactString() string } })
+	k, ok := obj.(interface {
+		Val() interface{ ExactString() string }
+	})
 	_ = k
 	_ = ok
 	return constOf(obj)
